@@ -4,9 +4,10 @@
 (* objects are refreshed by rows that another transaction has changed.     *)
 (*                                                                         *)
 (* Entities  A(id)  and  B(id, u Optional unique int, a Optional(A)),      *)
-(* A.bs = Set(B).  Both B rows and both A rows always exist.  One session  *)
-(* only reads; between its calls another transaction commits changes of    *)
-(* B rows (Ext).  Every row the session receives from the database is      *)
+(* A.bs = Set(B).  Both A rows always exist.  One session only reads;      *)
+(* between its calls another transaction commits changes of B rows (Ext),  *)
+(* deletes a B row (ExtDelete) or inserts one (ExtInsert).  Every row the  *)
+(* session receives from the database is                                   *)
 (* merged into the identity map (Entity._db_set_): an attribute that the   *)
 (* program has read may not change under it (UnrepeatableReadError), any   *)
 (* other attribute is refreshed, and with it                               *)
@@ -25,7 +26,7 @@ AIds == {1, 2}
 BIds == {1, 2}
 UVals == {1, 2}
 
-VARIABLES db,       \* committed rows: [BIds -> [u : 0..2, a : 0..2]]      (0 is NULL)
+VARIABLES db,       \* committed rows: [BIds -> [ex : BOOLEAN, u : 0..2, a : 0..2]]   (0 is NULL; ex: the row exists)
           loaded,   \* [BIds -> BOOLEAN]   the row of B[b] has been merged into the identity map
           cu, ca,   \* [BIds -> 0..2]      the session's values
           ru, ra,   \* [BIds -> BOOLEAN]   the program has read the value (read bits)
@@ -40,9 +41,11 @@ vars == <<db, loaded, cu, ca, ru, ra, coll, idx, sess, nExt, hot, ev>>
 
 Ev(op, k, x, y, out, ret) == [op |-> op, k |-> k, x |-> x, y |-> y, out |-> out, ret |-> ret]
 
-UniqueOk(d) == \A b1, b2 \in BIds : b1 # b2 /\ d[b1].u # 0 => d[b1].u # d[b2].u
+NoRow == [ex |-> FALSE, u |-> 0, a |-> 0]
+UniqueOk(d) == \A b1, b2 \in BIds : b1 # b2 /\ d[b1].ex /\ d[b2].ex /\ d[b1].u # 0 => d[b1].u # d[b2].u
 
-InitDbs == {d \in [BIds -> [u : 0 .. 2, a : 0 .. 2]] : UniqueOk(d) /\ d[1].u # 0 /\ d[1].a = 1}
+InitDbs == {d \in [BIds -> [ex : BOOLEAN, u : 0 .. 2, a : 0 .. 2]] :
+               /\ UniqueOk(d) /\ d[1].ex /\ d[1].u # 0 /\ d[1].a = 1 /\ (~d[2].ex => d[2] = NoRow)}
 
 Init == /\ db \in InitDbs
         /\ loaded = [b \in BIds |-> FALSE]
@@ -84,11 +87,12 @@ Merge(S, b, row) ==
                                                                         ELSE IF y = S.cu[b] THEN 0 ELSE @[y]]
                                            ELSE @]>>
 
-(* rows merged in primary-key order; the first failure ends the call *)
+(* rows merged in primary-key order (only rows that exist are delivered); the first failure ends the call *)
 MergeSet(S, bs) ==
-    LET r1 == IF 1 \in bs THEN Merge(S, 1, db[1]) ELSE <<"ok", S>>
+    LET r1 == IF 1 \in bs /\ db[1].ex THEN Merge(S, 1, db[1]) ELSE <<"ok", S>>
     IN  IF r1[1] # "ok" THEN r1
-        ELSE IF 2 \in bs THEN Merge(r1[2], 2, db[2]) ELSE r1
+        ELSE IF 2 \in bs /\ db[2].ex THEN Merge(r1[2], 2, db[2]) ELSE r1
+Existing(bs) == {b \in bs : db[b].ex}
 
 Install(S) == /\ loaded' = S.loaded /\ cu' = S.cu /\ ca' = S.ca /\ ru' = S.ru /\ ra' = S.ra
               /\ coll' = S.coll /\ idx' = S.idx
@@ -101,20 +105,39 @@ FailWith(op, k, x, out) ==
 ---------------------------------------------------------------------------
 (* another transaction commits a change of one row *)
 Ext(b, u, a) ==
-    /\ sess = "open" /\ nExt < MaxExt
+    /\ sess = "open" /\ nExt < MaxExt /\ db[b].ex
     /\ <<u, a>> # <<db[b].u, db[b].a>>
-    /\ LET d == [db EXCEPT ![b] = [u |-> u, a |-> a]] IN UniqueOk(d) /\ db' = d
+    /\ LET d == [db EXCEPT ![b] = [ex |-> TRUE, u |-> u, a |-> a]] IN UniqueOk(d) /\ db' = d
     /\ nExt' = nExt + 1
     /\ hot' = [bs |-> hot.bs \cup {b}, us |-> (hot.us \cup {u, db[b].u}) \ {0}, as |-> (hot.as \cup {a, db[b].a}) \ {0}]
     /\ ev' = Ev("Ext", b, u, a, "ok", {})
     /\ UNCHANGED <<loaded, cu, ca, ru, ra, coll, idx, sess>>    \* (db, nExt, hot, ev change)
+
+(* another transaction deletes a row / inserts a row that did not exist: the session is not told; a deleted row is
+   simply not delivered any more (what the session holds stays a snapshot), a new row is merged like any other when a
+   query delivers it - into a fully loaded collection it is a phantom *)
+ExtDelete(b) ==
+    /\ sess = "open" /\ nExt < MaxExt /\ db[b].ex
+    /\ db' = [db EXCEPT ![b] = NoRow]
+    /\ nExt' = nExt + 1
+    /\ hot' = [bs |-> hot.bs \cup {b}, us |-> (hot.us \cup {db[b].u}) \ {0}, as |-> (hot.as \cup {db[b].a}) \ {0}]
+    /\ ev' = Ev("ExtDelete", b, 0, 0, "ok", {})
+    /\ UNCHANGED <<loaded, cu, ca, ru, ra, coll, idx, sess>>
+
+ExtInsert(b, u, a) ==
+    /\ sess = "open" /\ nExt < MaxExt /\ ~db[b].ex /\ ~loaded[b]      \* (a key the session has seen is not reused)
+    /\ LET d == [db EXCEPT ![b] = [ex |-> TRUE, u |-> u, a |-> a]] IN UniqueOk(d) /\ db' = d
+    /\ nExt' = nExt + 1
+    /\ hot' = [bs |-> hot.bs \cup {b}, us |-> (hot.us \cup {u}) \ {0}, as |-> (hot.as \cup {a}) \ {0}]
+    /\ ev' = Ev("ExtInsert", b, u, a, "ok", {})
+    /\ UNCHANGED <<loaded, cu, ca, ru, ra, coll, idx, sess>>
 
 (* a query that delivers the rows bs again (no attribute is marked as read: the condition is on the primary key) *)
 Fetch(bs) ==
     /\ sess = "open" /\ bs # {}
     /\ LET r == MergeSet(Cache, bs)
        IN \/ /\ r[1] = "ok" /\ Install(r[2])
-             /\ ev' = Ev("Fetch", IF bs = BIds THEN 0 ELSE CHOOSE b \in bs : TRUE, 0, 0, "ok", bs)
+             /\ ev' = Ev("Fetch", IF bs = BIds THEN 0 ELSE CHOOSE b \in bs : TRUE, 0, 0, "ok", Existing(bs))
              /\ UNCHANGED <<db, sess, nExt, hot>>
           \/ /\ r[1] # "ok"
              /\ FailWith("Fetch", IF bs = BIds THEN 0 ELSE CHOOSE b \in bs : TRUE, 0, r[1])
@@ -140,7 +163,7 @@ ReadColl(a) ==
        THEN /\ ra' = [b \in BIds |-> ra[b] \/ b \in coll[a].items]
             /\ ev' = Ev("ReadColl", a, 0, 0, "ok", coll[a].items)
             /\ UNCHANGED <<db, loaded, cu, ca, ru, coll, idx, sess, nExt, hot>>
-       ELSE LET rows == {b \in BIds : db[b].a = a}
+       ELSE LET rows == {b \in BIds : db[b].ex /\ db[b].a = a}
                 r == MergeSet(Cache, rows)
             IN \/ /\ r[1] = "ok"
                   /\ LET S == r[2]
@@ -159,7 +182,7 @@ GetByU(y) ==
        THEN /\ ru' = [ru EXCEPT ![idx[y]] = TRUE]
             /\ ev' = Ev("GetByU", 0, y, 0, "ok", {idx[y]})
             /\ UNCHANGED <<db, loaded, cu, ca, ra, coll, idx, sess, nExt, hot>>
-       ELSE LET rows == {b \in BIds : db[b].u = y}
+       ELSE LET rows == {b \in BIds : db[b].ex /\ db[b].u = y}
                 r == MergeSet(Cache, rows)
             IN \/ /\ r[1] = "ok"
                   /\ Install([r[2] EXCEPT !.ru = [b \in BIds |-> @[b] \/ b \in rows]])
@@ -175,7 +198,8 @@ End ==
     /\ ev' = Ev("End", 0, 0, 0, "ok", {})
     /\ UNCHANGED <<db, loaded, cu, ca, ru, ra, coll, idx, nExt, hot>>
 
-Next == \/ \E b \in BIds, u \in 0 .. 2, a \in 0 .. 2 : Ext(b, u, a)
+Next == \/ \E b \in BIds, u \in 0 .. 2, a \in 0 .. 2 : Ext(b, u, a) \/ ExtInsert(b, u, a)
+        \/ \E b \in BIds : ExtDelete(b)
         \/ \E bs \in SUBSET BIds : Fetch(bs)
         \/ \E b \in BIds : ReadU(b) \/ ReadA(b)
         \/ \E a \in AIds : ReadColl(a)
@@ -195,7 +219,8 @@ Load == \/ \E bs \in SUBSET BIds : Fetch(bs)
         \/ \E a \in AIds : ReadColl(a)
         \/ \E y \in UVals : GetByU(y)
         \/ \E b \in BIds : ReadU(b) \/ ReadA(b)
-Change == \E b \in BIds, u \in 0 .. 2, a \in 0 .. 2 : Ext(b, u, a) /\ (u = db[b].u \/ a = db[b].a)
+Change == \/ \E b \in BIds, u \in 0 .. 2, a \in 0 .. 2 : (Ext(b, u, a) /\ (u = db[b].u \/ a = db[b].a)) \/ ExtInsert(b, u, a)
+          \/ \E b \in BIds : ExtDelete(b)
 SimNext == LET r == RandomElement(1 .. 10)
            IN IF nExt = 0 THEN IF r <= 5 THEN Load ELSE Change
               ELSE IF r <= 6 THEN Follow ELSE IF r <= 8 THEN Change ELSE Next
@@ -205,7 +230,7 @@ Bounded == TLCGet("level") <= MaxLevel
 DesignView == <<db, loaded, cu, ca, ru, ra, coll, idx, sess, nExt>>
 
 ---------------------------------------------------------------------------
-TypeOK == /\ db \in [BIds -> [u : 0 .. 2, a : 0 .. 2]] /\ UniqueOk(db)
+TypeOK == /\ db \in [BIds -> [ex : BOOLEAN, u : 0 .. 2, a : 0 .. 2]] /\ UniqueOk(db)
           /\ sess \in {"open", "failed", "over"}
           /\ coll \in [AIds -> [items : SUBSET BIds, full : BOOLEAN]]
           /\ idx \in [UVals -> BIds \cup {0}]
